@@ -153,4 +153,14 @@ PROPERTIES = {
         "bounds_statement": "persisted trees of N ascending entries (all layer assignments, heights 0..2), cache-less; one Get/Insert/Delete with a symbolic key",
         "assumptions": COMMON_ASSUMPTIONS,
     },
+    "C19": {
+        "runs": {
+            "quick": [H("HarnessC19a", b(N=3, L=3))],
+            "thorough": [H("HarnessC19a", b(N=4, L=4), sample_every=300), H("HarnessC19a", b(N=3, L=3, BF=3))],
+        },
+        "must_reach": ["C19.rejected.unknown-format", "C19.rejected.layer-below-height", "C19.rejected.top-missing", "C19.rejected.count-mismatch", "C19.rejected.not-ascending", "C19.rejected.not-ascending-under-configured-order", "C19.rejected.undecodable"],
+        "bounds_statement": "correctly persisted tree of N ascending symbolic entries, then one perturbation: unknown NodeFormat; symbolic Height (<=4); missing top node; well-formed top node with one value too many / one link too many / two adjacent keys swapped; loader KeyCompare reversed; top node replaced by an arbitrary undecodable buffer of <= L symbolic bytes each < 10 (single-byte varints)",
+        "outside": ["BranchFactor perturbation (the symbolic key type's layer does not depend on the branch factor; integer layers are covered in C14)", "buffers longer than L or with multi-byte varints"],
+        "assumptions": COMMON_ASSUMPTIONS,
+    },
 }
